@@ -98,9 +98,14 @@ def record_trace(fn, watch_prefix=None):
     return trace, res
 
 
-def apply_ops(root_src, root_dst, ops, torn=None):
-    """apply ops (paths below root_src) onto the copy at root_dst.  torn = number of bytes of the LAST write to keep."""
+def apply_ops(root_src, root_dst, ops, torn=None, lazy=False):
+    """apply ops (paths below root_src) onto the copy at root_dst.  torn = number of bytes of the LAST write to keep.
+    lazy: what a `write()` hands to a file object stays in that object's user-space buffer until its flush()/close();
+    a kill loses it.  (The buffer belongs to the open file, so it follows a rename of the file.)  The default (eager)
+    is the other extreme: every write reaches the disk at once."""
     handles = {}
+    pending = {}
+    renamed = {}
 
     def mp(p):
         rel = os.path.relpath(p, root_src)
@@ -121,12 +126,20 @@ def apply_ops(root_src, root_dst, ops, torn=None):
             data = bytes.fromhex(op[2])
             if i == n - 1 and torn is not None:
                 data = data[:torn]
-            with open(mp(op[1]), "ab") as f:
-                f.write(data)
+            if lazy:
+                pending[op[1]] = pending.get(op[1], b"") + data
+            else:
+                with open(mp(op[1]), "ab") as f:
+                    f.write(data)
         elif k in ("flush", "close"):
-            pass
+            if lazy and pending.get(op[1]):
+                # the handle was opened under op[1]; the file may have been renamed meanwhile
+                with open(mp(renamed.get(op[1], op[1])), "ab") as f:
+                    f.write(pending.pop(op[1]))
         elif k == "replace":
             os.replace(mp(op[1]), mp(op[2]))
+            if lazy:
+                renamed[op[1]] = op[2]
         elif k == "remove":
             os.remove(mp(op[1]))
         elif k == "rmdir":
@@ -225,7 +238,10 @@ def enumerate_crash_states(root, run_create, limit=None, torn_mode="sample"):
         res["trace_full"] = trace
         res["trace"] = [[o[0]] + [os.path.relpath(p, root) if isinstance(p, str) and p.startswith(root) else (p[:16] + "..." if o[0] == "write" and i == 1 else p) for i, p in enumerate(o[1:])] for o in trace]
         n = 0
-        for plen, torn in crash_points(trace, torn_mode):
+        points = [(plen, torn, False) for plen, torn in crash_points(trace, torn_mode)]
+        # the same prefixes with user-space buffers lost (only where that differs: after something other than a write)
+        points += [(plen, None, True) for plen in range(1, len(trace) + 1) if trace[plen - 1][0] not in ("write", "open", "mkdir")]
+        for plen, torn, lazy in points:
             if limit and n >= limit:
                 break
             n += 1
@@ -233,8 +249,8 @@ def enumerate_crash_states(root, run_create, limit=None, torn_mode="sample"):
             shutil.rmtree(os.path.join(work, "s"), ignore_errors=True)
             os.makedirs(os.path.join(work, "s"))
             shutil.copytree(pristine, dst, symlinks=True)
-            apply_ops(root, dst, trace[:plen], torn)
-            label = f"after op {plen}/{len(trace)} ({trace[plen-1][0] if plen else 'start'}{'' if torn is None else f', last write torn at {torn}'})"
+            apply_ops(root, dst, trace[:plen], torn, lazy=lazy)
+            label = f"after op {plen}/{len(trace)} ({trace[plen-1][0] if plen else 'start'}{'' if torn is None else f', last write torn at {torn}'}{', buffered data lost' if lazy else ''})"
             probs = check_recoverable(pre, dst, post, label)
             if probs:
                 res["unrecoverable"].extend(probs)
